@@ -2,10 +2,10 @@ package vc
 
 import (
 	"fmt"
-	"os"
 	"go/ast"
 	"go/token"
 	"go/types"
+	"os"
 	"sort"
 	"strconv"
 	"strings"
@@ -148,10 +148,10 @@ func (h hval) String() string {
 }
 
 type snap struct {
-	dead   bool
-	H      hval
+	dead    bool
+	H       hval
 	B, F, D int
-	detail bool
+	detail  bool
 }
 
 type jent struct {
@@ -173,34 +173,34 @@ type cent struct {
 }
 
 type bufSave struct {
-	sn       snap
-	blk, fbl []hval
-	jmpLen   int
-	cntLen   int
-	needH    int64
+	sn        snap
+	blk, fbl  []hval
+	jmpLen    int
+	cntLen    int
+	needH     int64
 	brk, cont []jseg
 }
 
 type tstate struct {
-	sn    snap
-	blk   []hval // heights saved by block.push instructions opened since entry
-	fbl   []hval
-	cnt   []cent
+	sn          snap
+	blk         []hval // heights saved by block.push instructions opened since entry
+	fbl         []hval
+	cnt         []cent
 	cntOuter    aff // added to the counter that was on top at entry
 	cntOuterUnk bool
 	cntUnder    int // counters of the caller popped (detailEnd pops what detailStart pushed)
-	names aff
-	jmp   []jseg
-	brk   []jseg
-	cont  []jseg
-	loops []int // LoopBegin marks: len(jmp) at LoopBegin (unused), depth only
-	flags int
-	bufs  []bufSave
-	st    aff // st.* instructions emitted
-	lastOp     int
-	lastIsJump bool
-	lastJump   string
-	jumpSnap   snap // state on the taken branch of the jump emitted last
+	names       aff
+	jmp         []jseg
+	brk         []jseg
+	cont        []jseg
+	loops       []int // LoopBegin marks: len(jmp) at LoopBegin (unused), depth only
+	flags       int
+	bufs        []bufSave
+	st          aff // st.* instructions emitted
+	lastOp      int
+	lastIsJump  bool
+	lastJump    string
+	jumpSnap    snap // state on the taken branch of the jump emitted last
 	// requirements on the state at entry
 	needH               int64
 	needB, needF, needD int
